@@ -523,7 +523,18 @@ func GenBackupCycle(r *Rng, o EngineGenOpts, hist map[string]int) []string {
 		}
 	}
 	add("files")
-	add("backup %s", bk)
+	// how the caller spells the destination, in both backups of the scenario: canonical, with a trailing separator,
+	// with "/./", with a doubled separator
+	style := r.Pick(0, 0, 1, 1, 2, 3)
+	backup := func() {
+		if style > 0 {
+			add("backup %s %d", bk, style)
+			hist["backup_destination_not_canonical"]++
+		} else {
+			add("backup %s", bk)
+		}
+	}
+	backup()
 	victim := r.Intn(groups)
 	if r.Chance(1, 4) {
 		// the source is emptied completely: the refreshed backup must open to the empty mapping
@@ -551,7 +562,7 @@ func GenBackupCycle(r *Rng, o EngineGenOpts, hist map[string]int) []string {
 	if r.Chance(1, 2) {
 		add("put %s @%d:%d", key(0, 0), vlen, r.Intn(99999))
 	}
-	add("backup %s", bk)
+	backup()
 	add("dump")
 	add("close")
 	add("dir %s", bk)
